@@ -242,7 +242,24 @@ func containsTable(d *domain, contains func(uint32) bool) []int {
 }
 
 // observe reads everything but Nums() off one flavour.
+// aliasOut receives violations of value semantics (see keeper in flavours.go)
+var (
+	aliasMu  sync.Mutex
+	aliasN   = map[string]int{}
+	aliasOut *vh.Out
+)
+
 func observe(d *domain, f flavour) obsT {
+	if a := f.Alias(); a != "" {
+		sig := "alias/" + f.Name()
+		aliasMu.Lock()
+		aliasN[sig]++
+		n := aliasN[sig]
+		aliasMu.Unlock()
+		if n <= 3 && aliasOut != nil {
+			aliasOut.Mismatch(sig, "value semantics: "+a, nil)
+		}
+	}
 	o := obsT{F: f.Name()}
 	o.Ranges = d.symRanges(f.Ranges())
 	o.Text = f.String()
@@ -920,6 +937,7 @@ func finishReplay(st *stats, nr *numsRunner, out *vh.Out, infra string) {
 
 func cmdReplay(path, side string, workers int, numsOf, wrapOf int) {
 	out := vh.NewOut()
+	aliasOut = out
 	nr := newNumsRunner()
 	nr.numsOf, nr.wrapOf = numsOf, wrapOf
 	sf, err := newSide(side)
@@ -949,6 +967,7 @@ func cmdReplay(path, side string, workers int, numsOf, wrapOf int) {
 
 func cmdOne(path, side string) {
 	out := vh.NewOut()
+	aliasOut = out
 	nr := newNumsRunner()
 	sf, err := newSide(side)
 	if err != nil {
@@ -1181,6 +1200,7 @@ func recordOp(d *domain, fls []flavour, o opT, hist []opT, nr *numsRunner) ([]ob
 
 func cmdRandom(path string, seed int64, traces, steps, texts int, numsOf, wrapOf int) {
 	out := vh.NewOut()
+	aliasOut = out
 	d, err := parseBlocks(randomBlocks)
 	if err != nil {
 		out.Summary(map[string]interface{}{"infra_error": err.Error()})
@@ -1291,6 +1311,7 @@ func cmdRandom(path string, seed int64, traces, steps, texts int, numsOf, wrapOf
 // cmdRerun re-executes the inputs of a recorded trace against the working tree.
 func cmdRerun(in, outPath string) {
 	out := vh.NewOut()
+	aliasOut = out
 	fail := func(err error) {
 		out.Summary(map[string]interface{}{"infra_error": err.Error()})
 		out.Flush()
